@@ -21,9 +21,12 @@ type ErrClass struct {
 	Pos    token.Pos
 	Fn     *ssa.Function
 	Wrapped bool // false when an underlying cause was dropped (%v / not passed on)
+	Site    string // for NotSupported: line-free key of the wrapping site
+	SiteFn  *ssa.Function
+	SitePos token.Pos
 }
 
-func (e ErrClass) key() string { return e.Tags + "|" + e.Cause + "|" + e.Origin }
+func (e ErrClass) key() string { return e.Tags + "|" + e.Cause + "|" + e.Origin + "|" + e.Site }
 
 func (e ErrClass) Retryable() bool {
 	return strings.Contains(e.Tags, "NoPkt") || strings.Contains(e.Tags, "BadPkt")
@@ -293,8 +296,8 @@ func (ea *ErrAnalysis) classOf(v ssa.Value, f *ssa.Function, seen map[ssa.Value]
 			for _, e := range inner {
 				e2 := e.withTag(tag)
 				if tag == "NotSupported" {
-					e2.Origin = fn + "#NotSupported(" + shortOrigin(e.Origin) + ")"
-					e2.Pos, e2.Fn = x.Pos(), f
+					e2.Site = fn + "#NotSupported(" + shortOrigin(e.Origin) + ")"
+					e2.SiteFn, e2.SitePos = f, x.Pos()
 				}
 				out.add(e2)
 			}
@@ -395,6 +398,9 @@ func (ea *ErrAnalysis) callClass(call *ssa.Call, f *ssa.Function, seen map[ssa.V
 		}
 		if strings.Contains(name, "gopacket") {
 			cause = "content"
+		}
+		if strings.HasPrefix(name, "iface:context.Context") {
+			cause = "ctx"
 		}
 		out.add(ErrClass{Cause: cause, Origin: fn + "#call(" + name + ")", Pos: call.Pos(), Fn: f, Wrapped: true})
 		return out
